@@ -187,7 +187,7 @@ def convertUntypedY (F : Facts) (n : NS) (target : Ty) : Res (Option NS) :=
         else (convertConstY F c b).bind fun rv => .ok (some { n with rv := rv, ty := target, self := false, set := false })
       | .r _ v =>
         -- not a constant.Value: convertConst returns it unchanged; `representable` looks at it through constValue
-        -- since 7402c20 (before, it returned early)
+        -- since e6c1f4a (before, it returned early)
         if F.eval.chk.reprConstValue && !representableY F v b then .ok none
         else .ok (some { n with ty := target, self := false })
 
@@ -494,7 +494,7 @@ def cShift (tok : Tok) (x : CV) (s : Nat) : Res CV :=
   | .unknown, _ => .ok .unknown
   | _, _ => .crash
 
-/-- `check.constExpr(n)` (typecheck.go, 5e2cd1c): the operation of `n` on constant operands, at least one of
+/-- `check.constExpr(n)` (typecheck.go, 31bf1d3): the operation of `n` on constant operands, at least one of
     them typed, recomputed exactly with go/constant; the result must be defined and representable in the type of
     the first operand. `ok` = no error. -/
 def constExprY (F : Facts) (a : Act) (unary : Bool) (c0 c1 : NS) : Res Unit :=
@@ -517,7 +517,7 @@ def constExprY (F : Facts) (a : Act) (unary : Bool) (c0 c1 : NS) : Res Unit :=
        else cBinary tok x y).bind fun r =>
       if representableY F r t then .ok () else .reject
 
-/-- `check.constOverflow(n)` (b425d98): an integer constant result (a reflect integer is one too, but never that
+/-- `check.constOverflow(n)` (eeab028): an integer constant result (a reflect integer is one too, but never that
     long) is limited to `N` bits -/
 def constOverflowY (F : Facts) (rv : RV) : Res Unit :=
   match F.eval.chk.intBitsMax, constValueY rv with
@@ -575,7 +575,7 @@ def fixUntypedY (F : Facts) (env : Env) (nty : Ty) (c0 c1 : NS) (rv : RV) : Res 
   else .ok { rv := rv, ty := nty, inner := if nty.untyped then c0.loose || c1.loose else false, set := isSetRV rv }
 
 /-- `check.shift`, right operand: an untyped count is converted to `uint`, a typed one must be of integer type —
-    or, when both operands are constants, of floating-point type with a non-negative integral value (04c8232) -/
+    or, when both operands are constants, of floating-point type with a non-negative integral value (ce5712d) -/
 def shiftCountY (F : Facts) (c1 : NS) : Res NS :=
   if c1.ty.untyped then
     (convertUntypedY F c1 (.t (.i .uint))).bind fun r => match r with
@@ -599,14 +599,14 @@ def shiftLeftY (c0 : NS) : Res NS :=
     if okLeft then .ok c0' else .reject
 
 /-- `check.shift` on the operands: the (possibly mutated) operands, or reject; the last test is the limit on
-    constant shift counts (b425d98) -/
+    constant shift counts (eeab028) -/
 def checkShiftY (F : Facts) (c0 c1 : NS) : Res (NS × NS) :=
   (shiftLeftY c0).bind fun c0' => (shiftCountY F c1).bind fun c1' =>
     match F.eval.chk.shiftCountMax with
     | none => .ok (c0', c1')
     | some m => (vUint c1'.rv).bind fun s => if s > m then .reject else .ok (c0', c1')
 
-/-- cfg.go, binaryExpr case (7973ebe): an operation on untyped constants is an untyped constant whatever type the
+/-- cfg.go, binaryExpr case (3f5ccd5): an operation on untyped constants is an untyped constant whatever type the
     context pushed down (`n.typ != nil` = a type was pushed, or left by an earlier walk) -/
 def stayUntypedY (F : Facts) (forced : Option Ty) (shift : Bool) (c0 c1 : NS) : Option Ty :=
   match forced with
@@ -643,7 +643,7 @@ def checkBinaryY (F : Facts) (forced : Option Ty) (a : Act) (c0 c1 : NS) : Res (
   else
     (if a == Act.rem || a == Act.quo then zeroConstY F c1 else .ok false).bind fun z =>
     if z then .reject
-    else if a == Act.quo && F.eval.chk.quoEarlyReturn then .ok (c0, c1)   -- before 4bcc5b4: no conversion, no type check
+    else if a == Act.quo && F.eval.chk.quoEarlyReturn then .ok (c0, c1)   -- before 6f2f5cf: no conversion, no type check
     else
       (convertUntypedY F c0 c1.ty).bind fun r0 =>
       let c0' := r0.getD c0
@@ -666,7 +666,7 @@ def binNodeY (F : Facts) (env : Env) (forced : Option Ty) (a : Act) (c0 c1 : NS)
 def comparisonOkY (a : Act) (t : Ty) : Bool :=
   if a == .eq || a == .ne then true else t.isNumber || t.isString
 
-/-- post-order case `binaryExpr` for the comparison operators (d04f498): both conversions must succeed, the types
+/-- post-order case `binaryExpr` for the comparison operators (b3f92e0): both conversions must succeed, the types
     must then be equal, the node has type `bool` and `compareConst` folds it with constant.Compare -/
 def cmpNodeY (F : Facts) (a : Act) (c0 c1 : NS) : Res NS :=
   match F.eval.foldOf a with
@@ -687,7 +687,7 @@ def cmpNodeY (F : Facts) (a : Act) (c0 c1 : NS) : Res NS :=
         else (cCompare (F.eval.tokOf a) (constValueY c0'.rv) (constValueY c1'.rv)).bind fun b =>
           .ok { rv := .r .bool (.bool b), ty := .t .bool }
 
-/-- post-order cases `landExpr` / `lorExpr` (check.logicalExpr, then the fold of d04f498) -/
+/-- post-order cases `landExpr` / `lorExpr` (check.logicalExpr, then the fold of b3f92e0) -/
 def logicNodeY (F : Facts) (a : Act) (c0 c1 : NS) : Res NS :=
   if !c0.ty.isBool || !c1.ty.isBool then .reject
   else
@@ -712,7 +712,7 @@ def convNodeY (F : Facts) (t : BT) (c1 : NS) : Res NS :=
        Res.ok { c1 with rv := .c (.str (utf8 (wrapK .int32 cp))) }
      else Res.reject
    | .r _ v =>
-     -- a typed constant converted to a numeric type is a constant conversion (7402c20)
+     -- a typed constant converted to a numeric type is a constant conversion (e6c1f4a)
      if F.eval.chk.convTypedChecked && (t.isInt || t.isFloat) && !representableY F v t then Res.reject
      else if convertibleY c1.ty.rtype t then Res.ok c1 else Res.reject).bind fun c1 =>
   (match c1.ty.untyped, c1.rv with
@@ -753,7 +753,7 @@ def evalY (F : Facts) (env : Env) : (forced : Option Ty) → CExpr → Res NS
       .ok { c with self := c.fidx && c.ty.untyped, inner := c.loose }
   | forced, .un a x =>
     if a == .not then
-      -- before d04f498 the boolean operators were outside the model; since then the operand of `!` gets no type
+      -- before b3f92e0 the boolean operators were outside the model; since then the operand of `!` gets no type
       -- from its parent, and in a later walk an operator chain still has the type the first walk left on it
       if !F.eval.chk.cmpNotPushed then .unm "bool-ops"
       else
@@ -827,7 +827,7 @@ def evalY (F : Facts) (env : Env) : (forced : Option Ty) → CExpr → Res NS
     (evalY F env childForced x).bind fun c1 =>
       if !c1.ty.isString then .reject                 -- check.builtin: "invalid argument for len"
       else
-        -- `isConstString(n.child[1])`: a string literal or a go/constant string (3d1d9b9)
+        -- `isConstString(n.child[1])`: a string literal or a go/constant string (a2a892e)
         let constStr : Bool := F.eval.chk.lenConstString &&
           ((match x with | .str _ => true | _ => false) || isConstRV c1.rv)
         if !env.inConst && !constStr then .unm "len-at-run-time"
